@@ -184,7 +184,18 @@ pub fn case(rng: &mut Rng) -> String {
         }
         5 => {
             let rp = 1 + rng.below(4);
-            let p = rand_poly(rng, rp, n);
+            let mut p = rand_poly(rng, rp, n);
+            // now and then some rows are scaled by 2^-40 (coefficients and bias: the same half-space, exactly): small
+            // coefficients are the facet, nothing may snap them to zero
+            if rng.chance(1, 4) {
+                let k = (2.0f64).powi(-40);
+                for i in 0..rp {
+                    if rng.chance(1, 2) {
+                        p.mat.row_mut(i).mapv_inplace(|v| v * k);
+                        p.bias[i] *= k;
+                    }
+                }
+            }
             let rot = signed_perm(rng, n);
             out.push_str("rotate ");
             enc::poly(&mut out, &p);
